@@ -252,6 +252,19 @@ def _wide_scenario(draw):
         sc = draw(scen.toy_binary_scenario(cap=300, allow_elastic=True))
     if draw(st.integers(0, 3)) == 3:
         sc["reset_rerun"] = True          # after the solve calls: reset() and one more run on the same model
+    if sc["system"] == "toy_bin" and draw(st.integers(0, 9)) == 0:
+        # a hold above the stability limit of every precipitate phase (the backend reports every size class unstable), run,
+        # reset() and run again: nothing may precipitate and nothing may be recorded as NaN, in the first run or the second
+        import math
+        Thot = 0.0
+        for p in sc["phases"]:
+            den = p["dS"] - 8.314462618 * math.log(0.9 * p["xb"])
+            if den > 0:
+                Thot = max(Thot, p["dH"] / den)
+        if 300.0 < Thot < 2500.0:
+            sc["T"] = ["const", float(Thot * 1.05)]
+            sc["reset_rerun"] = True
+            sc.pop("T_calls", None)
     return sc
 
 
@@ -274,7 +287,7 @@ PREDICATES = {"volume_step_limit_disabled": pred_volume_limit_disabled}
 def clauses():
     return [
         Clause("wellformed", _wide_scenario, check_wellformed, quick=200, thorough=3000, shrink=False,
-               rule="generator: toy binary (1-3 phases) and toy ternary (1-2 phases) scenarios over the whole option product (alloys inside/outside the two-phase field, profiles, sites, shapes, fixed/adaptive grids, every dt constraint toggle, minDtFrac, both iterators, 1-3 solve calls, 1 in 4 followed by reset() and another run on the same model), no faults; "
+               rule="generator: toy binary (1-3 phases) and toy ternary (1-2 phases) scenarios over the whole option product (alloys inside/outside the two-phase field, profiles, sites, shapes, fixed/adaptive grids, every dt constraint toggle, minDtFrac, both iterators, 1-3 solve calls, 1 in 4 followed by reset() and another run on the same model, 1 toy binary case in 10 as a hold above the stability limit of every precipitate phase with reset() and a second run), no faults; "
                     "oracle after every solve call: end time, strictly increasing times, 16 aligned finite histories, PSD >= 0, fractions and compositions in [0,1], total fraction <= 1, radii >= 0, no internal error; non-trivial: >= 50 steps"),
         Clause("faults_multi", _multi_fault_case, check_faults_multi, quick=160, thorough=3000, shrink=False,
                rule="generator: toy ternary scenario x scripted fault schedule {single, early, sparse, burst, dense up to 0.5/call} for the growth query (returns None) and optionally the impingement factor (falls back); same oracle; non-trivial: a growth fault injected while the driving force is positive in a run that holds precipitates"),
